@@ -42,8 +42,47 @@ fn gen_mapping(rng: &mut Rng, case: u64, slow: bool) -> (&'static str, Vec<u8>) 
     }
 }
 
+pub const HUGE_CASE: u64 = u64::MAX - 20;
+
+/// One class whose method has tens of thousands of entries, exercised on a thread
+/// with the default 2 MiB stack of a spawned Rust thread: depth-proportional
+/// recursion or quadratic blow-ups inside a query show up here.
+fn huge_case(ctx: &Ctx, rep: &mut Reporter) {
+    ctx.note_case(HUGE_CASE);
+    let mut rng = Rng::new(ctx.case_seed(HUGE_CASE));
+    let n = 60_000 + rng.below(5_000);
+    let ast = pgvcore::ast::huge_group_ast(&mut rng, n);
+    let text = ast.print_lf();
+    rep.count("huge_group_inputs", 1);
+    let r = std::thread::scope(|s| {
+        std::thread::Builder::new()
+            .stack_size(2 * 1024 * 1024)
+            .spawn_scoped(s, || guarded(|| exercise(&text, &mut rng, rep, HUGE_CASE, true)))
+            .expect("spawn")
+            .join()
+    });
+    match r {
+        Ok(Ok(())) => {}
+        Ok(Err(p)) => {
+            let mut d = Json::obj();
+            d.set("mapping", Json::s(format!("huge_group_ast(n={n})")));
+            panic_violation(rep, HUGE_CASE, "panic", &p, d);
+        }
+        Err(_) => {
+            eprintln!("HARNESS-ERROR: huge-case thread died");
+            std::process::exit(2);
+        }
+    }
+}
+
 pub fn run(ctx: &Ctx, rep: &mut Reporter) {
+    if !ctx.slow() && ctx.shard < 4 && (ctx.only_case.is_none() || ctx.only_case == Some(HUGE_CASE)) {
+        huge_case(ctx, rep);
+    }
     for case_idx in ctx.case_range() {
+        if case_idx == HUGE_CASE {
+            continue;
+        }
         let mut rng = ctx_rng(ctx, case_idx);
         let (kind, text) = gen_mapping(&mut rng, case_idx, ctx.slow());
         rep.count(&format!("inputs_{kind}"), 1);
